@@ -292,10 +292,81 @@ func runC03Alias(r *Run) {
 	r.Probe("lookup_partition_under_two_keys")
 }
 
+// runC03Moved: partition objects that served one strategy are used to build the next one (a configuration reload that
+// keeps the tier objects). Tokens of the new strategy are accounted in the new strategy - totals and bins.
+func runC03Moved(r *Run) {
+	t := r.T
+	kind := []string{"lookup", "predicate"}[t.Intn(2, "moved-kind")]
+	L1, L2 := 2+t.Intn(8, "moved-limit-1"), 2+t.Intn(8, "moved-limit-2")
+	kA := 1 + t.Intn(20, "moved-frac")
+	reg := core.EmptyMetricRegistryInstance
+	type strat interface {
+		core.Strategy
+		BusyCount() int
+	}
+	var objBusy func() int
+	var mk func(L int) (strat, error)
+	var ctxA context.Context
+	if kind == "lookup" {
+		obj := strategy.NewLookupPartitionWithMetricRegistry("tier", float64(kA)/32, 1, reg)
+		objBusy = obj.BusyCount
+		mk = func(L int) (strat, error) {
+			return strategy.NewLookupPartitionStrategyWithMetricRegistry(map[string]*strategy.LookupPartition{"a": obj}, nil, int32(L), reg)
+		}
+		ctxA = context.WithValue(bg, matchers.LookupPartitionContextKey, "a")
+	} else {
+		obj := strategy.NewPredicatePartitionWithMetricRegistry("tier", float64(kA)/32, matchers.StringPredicateMatcher("a", false), reg)
+		objBusy = obj.BusyCount
+		mk = func(L int) (strat, error) {
+			return strategy.NewPredicatePartitionStrategyWithMetricRegistry([]*strategy.PredicatePartition{obj}, int32(L), reg)
+		}
+		ctxA = context.WithValue(bg, matchers.StringPredicateContextKey, "a")
+	}
+	st1, err := mk(L1)
+	if err != nil {
+		r.Fail("harness", "build", "%v", err)
+		return
+	}
+	cycle := func(st strat, n int) bool {
+		for i := 0; i < n; i++ {
+			tok, ok := st.TryAcquire(ctxA)
+			if !ok {
+				r.Fail("refused-with-room", kind+"/moved", "request %d refused by a strategy with nothing in flight", i+1)
+				return false
+			}
+			tok.Release()
+		}
+		return true
+	}
+	n1, n2 := 1+t.Intn(4, "moved-cycles-1"), 1+t.Intn(2*L2, "moved-cycles-2")
+	if !cycle(st1, n1) {
+		return
+	}
+	st2, err := mk(L2)
+	if err != nil {
+		r.Fail("harness", "build", "%v", err)
+		return
+	}
+	if !cycle(st2, n2) {
+		return
+	}
+	r.Mixf("C03 moved %s L1=%d L2=%d frac=%d/32 cycles=%d,%d", kind, L1, L2, kA, n1, n2)
+	if b1, b2, bo := st1.BusyCount(), st2.BusyCount(), objBusy(); b1 != 0 || b2 != 0 || bo != 0 {
+		r.Fail("busy-mismatch", kind+"/moved", "a partition object served %d acquire/release cycles in one strategy and %d in the strategy built from it afterwards; nothing is in flight, but the first strategy counts %d, the second %d, the partition %d", n1, n2, b1, b2, bo)
+		return
+	}
+	r.Nontrivial = true
+	r.Probe("partition_object_moved_to_a_new_strategy")
+}
+
 func runC03(r *Run) {
 	t := r.T
 	if t.Chance(6, "alias-scenario") {
 		runC03Alias(r)
+		return
+	}
+	if t.Chance(4, "moved-scenario") {
+		runC03Moved(r)
 		return
 	}
 	kind := []string{"lookup", "predicate"}[t.Intn(2, "kind")]
